@@ -61,6 +61,25 @@ Theorem C06_declared_request_reads :
 Proof. exact spec_sent_inv. Qed.
 Print Assumptions C06_declared_request_reads.
 
+(* the interface level (cook.go:56-178): every method is analysed on its own -- its context,
+   body and dictionary parameters never leak into another method (the repaired K_rest_ctx_global
+   was the template testing the context map of the whole interface) -- and every method of an
+   interface whose methods are all well-formed gets its client method *)
+Theorem C06_methods_are_independent :
+  forall sigma E I, no_fatal sigma E I -> cook_methods sigma E I = COk (cooked_list sigma E I).
+Proof. exact cook_methods_list. Qed.
+Print Assumptions C06_methods_are_independent.
+
+Theorem C06_every_method_is_generated :
+  forall (sigma : oracle) E I,
+  is_oracle sigma ->
+  (forall m, In (IMethod m) I -> exists ms, linked E m ms /\ wf_mspec ms = true) ->
+  exists l, cook_methods sigma E I = COk l /\
+            map fst l = flat_map (fun it => match it with IMethod m => [md_name m] | IEmbed _ => [] end) I /\
+            forall m, In (IMethod m) I -> exists d, cook_method sigma E m = COk d /\ In (md_name m, d) l.
+Proof. exact cook_methods_all. Qed.
+Print Assumptions C06_every_method_is_generated.
+
 (* ------------------------------------------------------------------- the path *)
 (* restclient.tmpl:24-32 on strings: one strings.Replace(path_, "{h}", value, 1) per placeholder,
    each applied to the result of the previous one, fills in every placeholder (repeated ones
